@@ -825,7 +825,8 @@ def rule_sharedmut(prog: Program, modules: Optional[Set[str]] = None) -> List[In
                                     whole.add(x.id)
                     vnames = set()
                     val = n.value
-                    for x in ast.walk(val):
+                    # everything the stored value is computed from, through locals (`tr = make(a, b, flag); D[key] = tr`)
+                    for x in org.closure(val):
                         if isinstance(x, ast.Name) and x.id in params:
                             par = parent(x)
                             if not (isinstance(par, ast.Attribute) and par.value is x):
@@ -898,7 +899,26 @@ def rule_epsg_proxy(prog: Program, modules: Optional[Set[str]] = None) -> List[I
                     n_seen += 1
                     out.append(Instance("R-EPSGPROXY", f"{fi.qual}#epsg-compare:{short(n, 40)}", BAD,
                                         f"`{short(n, 60)}` compares EPSG codes in place of the CRSs: two different CRSs that both lack a code (None == None) count as the same and the re-projection / mismatch error is skipped", fi.where(n)))
-    out.append(Instance("R-EPSGPROXY", "epsg-compare-scan", OK, f"{n_seen} comparisons of two .epsg attributes outside the CRS class", "", nontrivial=False))
+    # a CRS object rebuilt from another CRS' `.epsg`: for anything not given as a code `.epsg` is pyproj's *best guess*
+    # (to_epsg() at reduced confidence) - `+proj=utm +zone=55 +south +ellps=GRS80` answers 7855 - so the rebuilt object
+    # can be a different CRS
+    from ..astutil import Origins
+
+    for fi in prog.all_functions(modules):
+        if fi.mod.name == "crs":
+            continue
+        org = None
+        for n in walk_own(fi.node):
+            if isinstance(n, ast.Call) and call_name(n) in ("CRS", "norm_crs", "norm_crs_or_error") and n.args:
+                if org is None:
+                    org = Origins(fi)
+                cl = org.closure(n.args[0])
+                src = [x for x in cl if isinstance(x, ast.Attribute) and x.attr in ("epsg", "_epsg")]
+                if src:
+                    n_seen += 1
+                    out.append(Instance("R-EPSGPROXY", f"{fi.qual}#epsg-rebuild:{short(n, 40)}", BAD,
+                                        f"`{short(n, 60)}` builds a CRS from `{short(src[0])}`: for a CRS that was not given as an EPSG code that attribute is a best-guess match, not its identity - the rebuilt CRS can differ from the original (GRS80 UTM 55S -> EPSG:7855)", fi.where(n)))
+    out.append(Instance("R-EPSGPROXY", "epsg-compare-scan", OK, f"{n_seen} comparisons of two .epsg attributes / CRS objects rebuilt from an .epsg outside the CRS class", "", nontrivial=False))
     return out
 
 
